@@ -1,5 +1,6 @@
 import JediModel.Gen.C04
 import JediModel.Lemmas.Completion
+import JediModel.Lemmas.PyCoreCompl
 /-! # C04 — Completions extend what is typed, are ordered, unique and complete
 
 Property theorems only (helper lemmas live in `Lemmas/`).  `lower` is CPython's
@@ -222,7 +223,48 @@ theorem source_dedup_key : Gen.C04.dedupKeyFields = ["name", "complete"] := by d
 /-- defaults the property statement relies on ("case-insensitively by default") -/
 theorem source_defaults : Gen.C04.caseInsensitiveDefault = true := by decide
 
+/-! ## attribute completeness (over the PyCore fragment, see C02) -/
+
+open JediModel.PyCore in
+/-- **After `expr.` where `expr` evaluates at run time to an instance defined in the analysed
+sources, every attribute the run-time object really has that is defined in those sources is
+offered.**  For every PyCore program satisfying `WFClasses`, every context, receiver expression
+`e` that the run evaluates to an instance of class statement `id`, and every attribute name `a`
+whose access `e.a` the run evaluates successfully: `a` is among `complNames` (the transcription
+of the instance/class filters `complete_trailer` collects names from). -/
+theorem attrs_complete_partial (p : Prog) (hwf : WFClasses p = true) (fuel : Nat) (ctx : CtxC)
+    (e : Expr) (a id : Nat) (args : List Val) (v : Val)
+    (he : evalC p fuel ctx e = some (.inst id args))
+    (ha : evalC p (fuel + 1) ctx (.attr e a) = some v) :
+    a ∈ complNames p fuel true id := by
+  simp only [evalC, he] at ha
+  cases hsa : selfAttrC p fuel id (.inst id args) args a with
+  | found v' => exact (compl p hwf fuel).self id _ _ a v' hsa
+  | missing =>
+    simp only [hsa] at ha
+    exact (compl p hwf fuel).attr _ id a v true ha
+  | error => simp [hsa] at ha
+
+open JediModel.PyCore in
+/-- the same for a class receiver (`C.a`) -/
+theorem class_attrs_complete_partial (p : Prog) (hwf : WFClasses p = true) (fuel : Nat) (ctx : CtxC)
+    (e : Expr) (a id : Nat) (v : Val)
+    (he : evalC p fuel ctx e = some (.cls id))
+    (ha : evalC p (fuel + 1) ctx (.attr e a) = some v) :
+    a ∈ complNames p fuel false id := by
+  simp only [evalC, he] at ha
+  exact (compl p hwf fuel).attr _ id a v false ha
+
 /-! ## non-vacuity -/
+
+open JediModel.PyCore in
+/-- `class B:` / `    k = 1` / `class C(B):` / `    def __init__(self): self.b = 's'` — not WFClasses
+(derived `__init__`), so use: `class C:` with `__init__`, attribute and method: `C().`
+offers b, k, m. (names: C=0, b=1, k=2, m=3) -/
+example :
+    let p : Prog := [.klass 0 none [(2, .int)] (some ⟨[], [(1, .str)]⟩) [⟨3, [], .int⟩],
+                     .probe (.call (.name 0) [])]
+    WFClasses p = true ∧ complNames p 10 true 0 = [1, 2, 3] := by decide
 
 example : ∃ c, c ∈ filterNames ⟨true, false⟩ (fun s => s.map Char.toLower)
     [⟨"Foo".toList, "Foo".toList, true, false⟩, ⟨"foo".toList, "foo=".toList, false, false⟩,
